@@ -10,6 +10,7 @@ import (
 
 	"github.com/inbucket/inbucket/v3/pkg/config"
 	"github.com/inbucket/inbucket/v3/pkg/extension"
+	"github.com/inbucket/inbucket/v3/pkg/storage"
 	"github.com/inbucket/inbucket/v3/pkg/stringutil"
 
 	"verifharness/internal/fw"
@@ -109,4 +110,70 @@ func runLostFile(c *fw.Ctx, idx int, r *fw.Rand) {
 	}
 	c.Count("lostfile_histories", 1)
 	c.NonTrivial(fmt.Sprintf("lostfile|%d|%d|%d", capN, fill, victim))
+}
+
+// Stream "capchange" (for seeded change C08-4, which until now C10 and C11 caught): the cap is a
+// configuration value, and a store started on an existing path with a LOWER cap meets mailboxes
+// holding more than it allows.  A file-store mailbox is filled under one cap, a new store object
+// with a smaller (or larger, or no) cap is opened on the path, deliveries continue: after every
+// delivery the mailbox lists at most the current cap, and what it lists are the most recent
+// deliveries in order.
+func runCapChange(c *fw.Ctx, idx int, r *fw.Rand) {
+	dir := c.TempDir("c08capchg")
+	defer os.RemoveAll(dir)
+	open := func(capN int) storage.Store {
+		st, err := sut.NewStore("file", config.Storage{Type: "file", Params: map[string]string{"path": dir}, MailboxMsgCap: capN}, extension.NewHost())
+		if err != nil {
+			panic(err)
+		}
+		return st
+	}
+	const mb = "capped"
+	from := &mail.Address{Address: "sender@origin.test"}
+	to := []*mail.Address{{Address: mb + "@inbucket.test"}}
+	caps := []int{[]int{5, 8, 12, 0}[idx%4], []int{1, 2, 3, 4}[(idx/4)%4]}
+	if idx%5 == 4 {
+		caps = append(caps, []int{0, 9, 1}[(idx/5)%3])
+	}
+	var ids []string
+	k := 0
+	for phase, capN := range caps {
+		st := open(capN)
+		n := r.Range(3, 14)
+		if phase > 0 {
+			n = r.Range(1, 6)
+		}
+		for i := 0; i < n; i++ {
+			k++
+			body := fmt.Sprintf("Subject: cc %d\r\n\r\nbody %d\r\n", k, k)
+			id, err := st.AddMessage(sut.NewDelivery(mb, from, to, fmt.Sprintf("cc %d", k), time.Now(), []byte(body)))
+			if err != nil {
+				c.Violation("C08:file:capchange:add-error", fmt.Sprintf("caps %v, phase %d: delivery %d fails: %v", caps, phase, k, err), nil)
+				return
+			}
+			ids = append(ids, id)
+			ms, err := st.GetMessages(mb)
+			if err != nil {
+				c.Violation("C08:file:capchange:list-error", fmt.Sprintf("caps %v, phase %d: listing after delivery %d fails: %v", caps, phase, k, err), nil)
+				return
+			}
+			var got []string
+			for _, m := range ms {
+				got = append(got, m.ID())
+			}
+			if capN > 0 && len(ids) > capN {
+				ids = ids[len(ids)-capN:]
+			}
+			if capN > 0 && len(got) > capN {
+				c.Violation("C08:file:capchange:cap-exceeded", fmt.Sprintf("caps %v, phase %d (cap %d): after delivery %d the mailbox lists %d messages", caps, phase, capN, k, len(got)), nil)
+				return
+			}
+			if fmt.Sprint(got) != fmt.Sprint(ids) {
+				c.Violation("C08:file:capchange:wrong-messages", fmt.Sprintf("caps %v, phase %d (cap %d): after delivery %d the mailbox lists %v, the most recent deliveries are %v", caps, phase, capN, k, got, ids), nil)
+				return
+			}
+		}
+	}
+	c.Count("capchange_histories", 1)
+	c.NonTrivial(fmt.Sprintf("capchange|%v", caps))
 }
